@@ -5,14 +5,18 @@ package main
 import (
 	"fmt"
 	"go/ast"
+	"go/parser"
 	"go/printer"
 	"go/token"
+	"os"
+	"path/filepath"
+	"sort"
 	"strings"
 
 	. "vh/vhlib"
 )
 
-var gens = map[string]GenFn{"SrcTokens": genSrcTokens, "HealthOps": genHealthOps, "LBTokens": genLBTokens, "HealthLoop": genHealthLoop, "RRTokens": genRRTokens}
+var gens = map[string]GenFn{"SrcTokens": genSrcTokens, "HealthOps": genHealthOps, "LBTokens": genLBTokens, "HealthLoop": genHealthLoop, "RRTokens": genRRTokens, "HealthStoreOps": genHealthStoreOps}
 
 // genSrcTokens: literal tokens / constants at named sites.
 //
@@ -581,5 +585,80 @@ func genRRTokens(repo string) (string, error) {
 	default:
 		b.WriteString("(* roundRobinLoadBalancer.ChooseHost: text not recognised *)\nDefinition rr_second_pass : sp_variant := SPReduced.\nDefinition RRTokens_translator_ok := false.\n")
 	}
+	return b.String(), nil
+}
+
+// ---------------------------------------------------------------------------
+// genHealthStoreOps: which operations does package cluster perform on the per-address store `healthStore`?
+// Every non-test, non-verif file of pkg/upstream/cluster is parsed; every occurrence of the identifier healthStore
+// must be its declaration or the receiver of a method call.
+//
+//	only LoadOrStore / Load           => StoreAppendOnly
+//	additionally Delete               => StoreReleaseZero (entries can disappear while host objects hold the word)
+//	anything else (Store, Range, Swap, CompareAndSwap, LoadAndDelete, the variable passed around or re-assigned)
+//	                                  => HealthStoreOps_translator_ok := false
+func genHealthStoreOps(repo string) (string, error) {
+	dir := filepath.Join(repo, "pkg/upstream/cluster")
+	fset := token.NewFileSet()
+	pkgs, err := parser.ParseDir(fset, dir, func(fi os.FileInfo) bool {
+		n := fi.Name()
+		return !strings.HasSuffix(n, "_test.go") && !strings.HasPrefix(n, "verif_hooks")
+	}, 0)
+	if err != nil {
+		return "", err
+	}
+	methods := map[string]int{}
+	other := 0
+	decls := 0
+	for _, pkg := range pkgs {
+		for _, f := range pkg.Files {
+			recv := map[*ast.Ident]bool{}
+			ast.Inspect(f, func(n ast.Node) bool {
+				switch x := n.(type) {
+				case *ast.CallExpr:
+					if sel, ok := x.Fun.(*ast.SelectorExpr); ok {
+						if id, ok := sel.X.(*ast.Ident); ok && id.Name == "healthStore" {
+							methods[sel.Sel.Name]++
+							recv[id] = true
+						}
+					}
+				case *ast.ValueSpec:
+					for _, nm := range x.Names {
+						if nm.Name == "healthStore" {
+							decls++
+							recv[nm] = true
+						}
+					}
+				}
+				return true
+			})
+			ast.Inspect(f, func(n ast.Node) bool {
+				if id, ok := n.(*ast.Ident); ok && id.Name == "healthStore" && !recv[id] {
+					other++
+				}
+				return true
+			})
+		}
+	}
+	var b strings.Builder
+	b.WriteString("From MV Require Import Model.HealthStore.\n")
+	names := make([]string, 0, len(methods))
+	for m := range methods {
+		names = append(names, m)
+	}
+	sort.Strings(names)
+	fmt.Fprintf(&b, "(* methods called on healthStore: %s *)\n", strings.Join(names, ", "))
+	ok := decls == 1 && other == 0 && methods["LoadOrStore"] > 0
+	mode := "StoreAppendOnly"
+	for _, m := range names {
+		switch m {
+		case "LoadOrStore", "Load":
+		case "Delete":
+			mode = "StoreReleaseZero"
+		default:
+			ok = false
+		}
+	}
+	fmt.Fprintf(&b, "Definition hs_mode : store_mode := %s.\nDefinition HealthStoreOps_translator_ok := %v.\n", mode, ok)
 	return b.String(), nil
 }
